@@ -6,7 +6,7 @@ ROOT = os.path.dirname(os.path.dirname(os.path.abspath(__file__)))
 def main():
     props = {}
     for p in sorted(glob.glob(os.path.join(ROOT, "props", "C*.json"))):
-        if p.endswith(".findings.json"):
+        if p.endswith(".findings.json") or p.endswith(".fixed.json"):
             continue
         try:
             d = json.load(open(p))
@@ -86,6 +86,15 @@ def main():
             kf["fixed"] = json.load(open(kf_path)).get("fixed", [])
         except Exception:
             pass
+    # 'fixed' entries: hand-kept ones plus props/Cxx.fixed.json fragments written after a fix: commit
+    fixed = {json.dumps(e, sort_keys=True): e for e in kf["fixed"]}
+    for p in sorted(glob.glob(os.path.join(ROOT, "props", "C*.fixed.json"))):
+        try:
+            for ent in json.load(open(p)):
+                fixed[json.dumps(ent, sort_keys=True)] = ent
+        except Exception as e:
+            print("skipping", p, e)
+    kf["fixed"] = list(fixed.values())
     for p in sorted(glob.glob(os.path.join(ROOT, "props", "C*.findings.json"))):
         try:
             for ent in json.load(open(p)):
